@@ -108,7 +108,7 @@ def harness_names():
     rc, out, err = run([HARNESS_BIN, 'names'])
     if rc != 0:
         raise RuntimeError('harness names failed: ' + err)
-    return [l for l in out.splitlines() if l.startswith('name ')]
+    return [l for l in out.splitlines() if l.startswith('name ') or l.startswith('sname ')]
 
 
 def run_harness(lines, extra_args=None):
@@ -195,7 +195,19 @@ def answers_agree(impl, model):
         return hex_match(a[0], b[0]) and a[1] == b[1]
     a, b = parse_case_answer(impl), parse_case_answer(model)
     if a is None or b is None:
-        return False
+        # generic token-wise comparison; hex tokens of the model may contain '..' wildcards
+        ta, tb = impl.split(' '), model.split(' ')
+        if len(ta) != len(tb):
+            return False
+        for x, y in zip(ta, tb):
+            if x == y:
+                continue
+            if ':' in x and ':' in y and x.split(':', 1)[0] == y.split(':', 1)[0]:
+                x, y = x.split(':', 1)[1], y.split(':', 1)[1]
+            if '..' in y and hex_match(x, y):
+                continue
+            return False
+        return True
     if a['S']['status'] != b['S']['status'] or a['S']['count'] != b['S']['count']:
         return False
     if not hex_match(a['S']['hex'], b['S']['hex']):
